@@ -34,6 +34,11 @@ CHECKS = {
    text="Proof on the policy layer: accept_parseJWT / parseJWS / dpop / dagTx / apiToken / jar / vcJwt / ldProof => exactly one signature, algorithm on the consumer's regenerated allow-list and asymmetric, verified with the header algorithm over its own signing input, key from the consumer's source, embedded private keys refused (dpop under a stated jwx contract); allowed_lists_asymmetric (decide over regenerated lists), header_keys_ignored, apiToken_key_header_rejected; pre-fix negation witnesses. Tie: 7 fact_* obligations on the error-exit condition lists of every modelled function + ~15k variant lines per quick run (alg none/HS*/other family, 0/1/2 signatures via JSON serialisation, split confusion, jwk pub/priv/oct, jku, x5c, x5u, kid games, truncation, re-encoding) over ParseJWT, ParseJWS, dpop.Parse, ParseTransaction+verifier, tokenV2 middleware, jar.validate, VC/VP jwtSignature. Three genuine defects established and repaired (9640310 two-signature bearer token, 0f5d4b5 ParseJWS split confusion, bc0aac3 DAG embedded private jwk by the C06 builder).",
    note="Trusted: Lean kernel; extractor; harness. 'Verified over the exact bytes received' lives in the jwx contract (verdicts are harness data); jwx accepts non-canonical base64 and verifies the canonical re-encoding (counted in evidence, same decoded content). LDProof.Verify is modelled but has no harness; ES256K build tag not covered.",
    ref="5 C17"),
+ "C01": dict(
+   technique="Lean 4 theorems over a hand-written model in which every Go error return on the verification path is one named check (accept <=> conjunction of all checks); conditional tamper-evidence under explicit EUF/digest/canonicalisation hypotheses; regenerated ordered return/guard lists as facts; systematic-mutation differential against the real issuer, wallet and verifier",
+   text="Proof: check_order_irrelevant_for_accept / vp_... (accept <=> all checks, permutation invariant), valid_only_if (assertion key listed under the proof's key id in the issuer's document resolved at the validation time, key id owned by the issuer, windows +- skew, not revoked, trusted when required), key_is_from_the_issuers_document, vp_valid_only_if (signer is subject of every carried credential, holder = signer, each VC verified), own_output_verifies_ld/_jwt, own_presentation_verifies. PARTIAL by construction: tamper_evident(_jwt/_vp) hold under hypotheses (unforgeability, digest injectivity, canonicalisation contract) with the residue undefined_member_unsigned stated and the measured residue list (members that can change without failing verification) written to the evidence. Tie: fact_* obligations pinning the ordered return lists of Verify, doVerifyVP, jsonldProof, jwtSignature, ParseJWT, PresentationSigner, Issue etc., maxSkew, algorithms + per-mutant differential (typed view, real canonical digests and real signature verdicts cross the line protocol) on ~4.6k verifications per quick run + model-independent oracles. Two genuine defects established and repaired (e2f889b, 995226b: case-folded JSON members read by Go but unsigned under JSON-LD).",
+   note="Partial: canonicalisation (json-gold URDNA2015), SHA-256, JWS/jwx and go-did parsing are contracts monitored on every mutant, not proved. Trusted: Lean kernel; extractor; harness. Only EC P-256 keys; validAt=nil (time.Now) not exercised; status-list decision only (C11 owns the rest).",
+   ref="5 C01"),
 }
 def main():
     checks = []
